@@ -35,6 +35,8 @@ def run(res):
     add(9, {"enc_mode": 5}, "motion", 128, 128)
     add(12, {"rate_control_mode": 1, "target_bit_rate": 300000, "logical_processors": 1}, "motion", 176, 144)
     add(6, {"super_block_size": 128, "enc_mode": 3}, "motion", 128, 128)
+    add(5, {}, "motion", 128, 192)            # taller than wide (recorded finding: decoder crash)
+    add(5, {}, "grad", 72, 88)
     if res.tier == "thorough":
         for i in range(50):
             add(rng.choice([5, 9, 17, 26]), {"enc_mode": rng.choice([8, 7, 6, 5, 4]), "qp": rng.choice([5, 25, 45, 63]),
@@ -67,7 +69,9 @@ def run(res):
                     res.violation("decoder %s fails on a valid stream: %s (%s)" % (e.get("who"), e.get("msg", e.get("phase")), r["desc"]), "",
                                   key={"kind": "decerror", "who": e.get("who"), "bits": r["case"]["bits"]})
             if d and d["rc"] not in (0, 3) and not any(e["ev"] == "DecTeardown" for e in d["events"]):
-                res.violation("decoder process died (rc=%s) on a valid stream: %s" % (d["rc"], r["desc"]), d["log"][-800:], key={"kind": "crash"})
+                c = r["case"]
+                res.violation("decoder process died (rc=%s) on a valid stream: %s" % (d["rc"], r["desc"]), d["log"][-800:],
+                              key={"kind": "crash", "portrait": int((c["h"] + 63) // 64 > (c["w"] + 63) // 64)})
         if os.path.exists(r["out"] + ".dec16"):
             os.unlink(r["out"] + ".dec16")
     res.sample({"observations": b.recs.get("Observe", [])[:6]})
